@@ -314,6 +314,7 @@ func runC11(r *vf.Run) {
 	c11Lookalikes(r)
 	c11ManyPlaceholders(r)
 	c11Cancelled(r)
+	c11ArgumentForms(r)
 	racePass(r)
 	r.Floor("Prepare and direct path both used", r.Covered("paths") == 2)
 	r.Floor("too-few, exact and too-many argument lists all seen", r.Covered("argument_counts") == 3)
